@@ -855,6 +855,12 @@ def src_term(s, query, ids, intern, size, bbox):
             cov = 1
         elif s.coverage.intersects(query.bbox, query.srs):
             cov = 2
+            from mapproxy.image import bbox_position_in_image
+            from mapproxy.layer import MapExtent
+            if s.extent and not s.extent.contains(MapExtent(query.bbox, query.srs)):
+                sub_size = bbox_position_in_image(query.bbox, query.size, s.extent.bbox_for(query.srs))[0]
+                if sub_size[0] == 0 or sub_size[1] == 0:
+                    cov = 4         # touches the query only: _get_sub_query raises BlankImage
         else:
             cov = 3
     tmpl = s.client.request_template
